@@ -989,7 +989,18 @@ class Ex:
         return nv
 
     def s_For(self, st):
-        it = self.eval(st.iter)
+        enum_start = None
+        iter_node = st.iter
+        if isinstance(iter_node, ast.Call) and isinstance(iter_node.func, ast.Name) and iter_node.func.id == "enumerate" \
+                and self.frame().lookup("enumerate") is None and 1 <= len(iter_node.args) <= 2 \
+                and isinstance(st.target, (ast.Tuple, ast.List)) and len(st.target.elts) == 2:
+            # for i, x in enumerate(seq[, start]): the index is the iterator's cursor
+            enum_start = self.eval(iter_node.args[1]) if len(iter_node.args) == 2 else VInt(0)
+            for kw_ in iter_node.keywords:
+                if kw_.arg == "start":
+                    enum_start = self.eval(kw_.value)
+            iter_node = iter_node.args[0]
+        it = self.eval(iter_node)
         spec, fn, k = self.loop_spec(st)
         # shared iterator object: the cursor lives in the box
         if isinstance(it, VBox) and it.kind == "iter":
@@ -999,7 +1010,9 @@ class Ex:
         if box is None:
             raise Unsupported("for over %r" % (it,))
         if isinstance(box, list):           # concrete finite sequence of V values
-            for x in box:
+            for n_, x in enumerate(box):
+                if enum_start is not None:
+                    x = VTuple([VInt(enum_start.t + n_), x])
                 self.assign(st.target, x)
                 try:
                     self.exec_block(st.body)
@@ -1018,6 +1031,8 @@ class Ex:
             seq, cur = box.val
             x = self.world.speclib.seq_index(self, seq, cur, checked=False)
             box.val = (seq, VInt(cur.t + 1))
+            if enum_start is not None:
+                x = VTuple([VInt(z3.simplify(enum_start.t + cur.t)), x])
             self.assign(st.target, x)
 
         if spec is None:
